@@ -1,0 +1,11 @@
+//go:build verif
+
+package jobqueuecontroller
+
+import "k8s.io/client-go/util/workqueue"
+
+// VerifSetQueues replaces the controller's workqueues.
+func (c *Context) VerifSetQueues(jobConfigQueue, independentQueue workqueue.RateLimitingInterface) {
+	c.jobConfigQueue = jobConfigQueue
+	c.independentQueue = independentQueue
+}
